@@ -10,7 +10,7 @@ NOTES = 'Exit codes of ./check: 0 all obligations discharged; 1 VIOLATION (defin
 PENDING = 'check not built yet in this session (planned in DESIGN.md section 5)'
 NOT_APPLICABLE = {
     'C06': PENDING, 
-    'C14': PENDING, 'C15': PENDING, 'C16': PENDING, 
+    'C16': PENDING, 
     'C11': 'numerical accuracy of a 1000-bin f32 convolution against an exact enumeration over K^M words: floats are uninterpreted in Verus and the convolution is out of reach of CBMC; no contract within reach expresses or decides it (DESIGN.md 5/C11)',
     'C12': 'HashMap<i64,f64> dynamic programming bounded by exact tail probabilities of the true score distribution: a protocol-level real-number argument (TFM-PVALUE paper), not expressible over the real code with Verus (opaque floats, no HashMap iteration specs) or Kani (unbounded loops over float maps) (DESIGN.md 5/C12)',
     'C13': 'same algorithm and obstacle as C12 (score thresholds from the same f64 HashMap recurrences) (DESIGN.md 5/C13)',
@@ -18,6 +18,18 @@ NOT_APPLICABLE = {
 }
 
 CHECKS = {
+    'C14': {
+        'text': 'Partial (reader layer of two of the four formats): unbounded deductive proof (Verus) of jaspar::Reader::{new, next} and jaspar16::Reader::{new, next} on their verbatim bodies against an abstract pending-text state: a successful next() hands the parser a prefix of the pending text and removes exactly the consumed prefix, so records are cut from consecutive gap-free slices of the file in order, independently of stream chunking (by the assumed contract of read_until) and of buffer compaction. Grammars (nom), transfac/uniprobe readers and matrix filling are NOT proved; they are exercised by the native sweep (all four formats, generated files with 1..120 records, 8 buffer capacities) in the thorough tier.',
+        'design_ref': 'DESIGN.md section 5, C14',
+        'note': 'Trusted: Verus/Z3; std read_until / from_utf8 / copy_within contracts (A-IO, A-V3); the nom grammar contract (A-NOM1..4, unverified). Field-level fidelity ("as written", column of its symbol) is NOT decided by the proof.',
+        'technique': 'contract-based deductive verification (Verus, real bodies extracted per run) with an abstract pending-text invariant; native sweep as bounded cross-check',
+    },
+    'C15': {
+        'text': 'Partial: unbounded deductive proof (Verus) that jaspar::Reader and jaspar16::Reader {new, next} never panic (slice ranges, usize subtraction/addition, truncate, copy_within) for every byte stream and chunking, from a representation invariant preserved by every successful call. The four defects found (empty input underflow, unimplemented!() on ragged rows, input[0] on an empty column list, unreachable!() via a streaming combinator) were reproduced natively and fixed. Parsers, transfac/uniprobe readers: bounded native sweep only (thorough tier).',
+        'design_ref': 'DESIGN.md section 5, C15; section 8 (D6a-d fixed)',
+        'note': 'Trusted: as C14. Termination of a consumer that stops at the first error/None follows from each next() terminating (no loops in the JASPAR readers); not proved for uniprobe/transfac whose next() contain loops.',
+        'technique': 'contract-based deductive verification (Verus, real bodies extracted per run); native sweep as bounded cross-check',
+    },
     'C18': {
         'text': 'Partial (pure fragments): deductive proof (Verus) on the verbatim bodies of {Count,Weight,Scoring}Matrix.__getitem__, EncodedSequence.__getitem__/__len__, StripedScores.__getitem__/__len__ (all isize indices: in-range of either sign returns the right element, everything else IndexError, and no out-of-range index ever reaches the backing matrix, i.e. no panic), and of the shape/stride computations in ScoringMatrix::new, From<StripedSequenceData>, From<StripedScores<f32>> against the buffer-protocol addressing rule. PyO3 types are shells; the live behaviour is cross-checked natively by an embedded CPython (pyreplay crate, thorough tier and on any failure).',
         'design_ref': 'DESIGN.md section 5, C18; section 8 (defects D7a, D7b, D7c fixed; D7d recorded)',
